@@ -4,13 +4,15 @@
 REPO=${1:-/repo}
 OUT=${2:-/tmp/baseline_$$}
 cd "$REPO" && env -u PYTHON_MINIFIER_VERIF PYTHONPATH="$REPO/src" /venv/bin/python -m pytest -ra -q -p no:cacheprovider --timeout=900 --continue-on-collection-errors --junitxml=$OUT.xml > $OUT.log 2>&1
-/venv/bin/python - "$OUT.xml" <<'PY'
+BASELINE_REPO_DIR="$REPO" /venv/bin/python - "$OUT.xml" <<'PY'
 import json, sys, xml.etree.ElementTree as ET
 base = json.load(open('/root/.vp/BASELINE.json'))
 stable = set(base['stable_pass'])
+import os
+REPO_DIR = os.environ.get('BASELINE_REPO_DIR', '/repo')
 passed = set(); failed = set()
 for tc in ET.parse(sys.argv[1]).getroot().iter('testcase'):
-    name = tc.get('classname') + '::' + tc.get('name')
+    name = (tc.get('classname') + '::' + tc.get('name')).replace(REPO_DIR, '/repo')
     bad = any(c.tag in ('failure', 'error', 'skipped') for c in tc)
     (failed if bad else passed).add(name)
 missing = sorted(stable - passed)
